@@ -191,15 +191,24 @@ def gen_rule(ctx: Ctx, ge: GrammarEval, pp_) -> None:
     # register_name is rebuilt from the parsed register: either the ABI name or "x" + number
     txt = " ".join(ast.unparse(pp_.node).split())
     n_rt = 0
+    # locals bound once to a part of the parse result (temporaries of an inlined helper) stand for it
+    from ..pathsym import subst as _subst
+    _cnt: dict = {}
+    for n in ast.walk(pp_.node):
+        if isinstance(n, ast.Name) and isinstance(n.ctx, ast.Store):
+            _cnt[n.id] = _cnt.get(n.id, 0) + 1
+    _single = {n.targets[0].id: n.value for n in ast.walk(pp_.node) if isinstance(n, ast.Assign) and len(n.targets) == 1 and isinstance(n.targets[0], ast.Name)
+               and _cnt.get(n.targets[0].id) == 1 and isinstance(n.value, (ast.Attribute, ast.Subscript)) and not any(isinstance(x, ast.Call) for x in ast.walk(n.value))}
     for n in ast.walk(pp_.node):
         if isinstance(n, ast.Assign) and isinstance(n.targets[0], ast.Name) and "register_name" in n.targets[0].id and isinstance(n.value, ast.IfExp):
             n_rt += 1
-            v = n.value
+            v = _subst(n.value, _single)
             a = ast.unparse(v.body)                                   # line_parsed.R[0]
             t = " ".join(ast.unparse(v.test).split())                 # type(line_parsed.R[0]) == str
             e = " ".join(ast.unparse(v.orelse).split())               # 'x' + line_parsed.R[0][1]
             reg = a[len("line_parsed."):-len("[0]")] if a.startswith("line_parsed.") and a.endswith("[0]") else None
-            ok = reg is not None and t == f"type(line_parsed.{reg}[0]) == str" and e == f"'x' + line_parsed.{reg}[0][1]"
+            ok = reg is not None and t in (f"type(line_parsed.{reg}[0]) == str", f"type(line_parsed.{reg}[0]) is str", f"isinstance(line_parsed.{reg}[0], str)") \
+                and e in (f"'x' + line_parsed.{reg}[0][1]", f"f'x{{line_parsed.{reg}[0][1]}}'")
             r.check(ok, f"register-text|{n.targets[0].id}#{n_rt}", pp_.loc(n), f"`{n.targets[0].id}` is rebuilt from different operands: "
                     f"value `{a}`, spelling test `{t}`, number `{e}` -- the three must name the same parsed register")
     r.check(n_rt >= 6, "register-text", pp_.loc(), "register text is no longer rebuilt as ABI name or 'x'+number")
